@@ -34,33 +34,63 @@
 /* VERIF-UNIT
 {
  "name": "mkdir_protocol",
- "props": ["C10"],
+ "props": [
+  "C10",
+  "C18"
+ ],
  "level": "P",
  "tier": "quick",
  "harness": "h_mkdir",
- "enforce": ["ext2fs_mkdir"],
- "defines": ["MK_NO_INLINE_INIT_FAILURE"],
+ "enforce": [
+  "ext2fs_mkdir"
+ ],
+ "defines": [
+  "MK_NO_INLINE_INIT_FAILURE"
+ ],
  "unwind": 8,
  "unwind_reason": "ext2fs_mkdir is loop-free; strlen runs over a name of at most 4 bytes (cap stated in assumes); unwinding assertions on",
  "timeout": 300,
- "functions": ["lib/ext2fs/mkdir.c:ext2fs_mkdir"],
- "assumes": ["every callee (ext2fs_new_inode, _new_block2, _find_inode_goal, _new_dir_block, _new_dir_inline_data, _read_inode, _iblk_set, _write_new_inode, _write_dir_block4, _inline_data_init, _extent_open2/_set_bmap/_free, _block/_inode_alloc_stats2, _lookup, _link, _write_inode) is a stub in the unit: checks its arguments against the ghost monitor, logs the event, fails nondeterministically", "the link stub may change every field of the parent's on-disk inode except i_links_count", "the parent's on-disk link count is below 65000 (EXT4_LINK_MAX): ext2fs_mkdir increments the 16-bit field without the dir_nlink saturation rule (observation, reported)", "ext2fs_inline_data_init does not fail (its result is ignored by ext2fs_mkdir: genuine defect, findings/C10_mkdir_inline_init_error, unit mkdir_protocol_full)", "name is NULL or a C string of at most 4 bytes; superblock feature words, s_rev_level, s_first_ino, fs->umask arbitrary", "malloc/free are CBMC's built-in models"],
+ "functions": [
+  "lib/ext2fs/mkdir.c:ext2fs_mkdir"
+ ],
+ "assumes": [
+  "every callee (ext2fs_new_inode, _new_block2, _find_inode_goal, _new_dir_block, _new_dir_inline_data, _read_inode, _iblk_set, _write_new_inode, _write_dir_block4, _inline_data_init, _extent_open2/_set_bmap/_free, _block/_inode_alloc_stats2, _lookup, _link, _write_inode) is a stub in the unit: checks its arguments against the ghost monitor, logs the event, fails nondeterministically",
+  "the link stub may change every field of the parent's on-disk inode except i_links_count",
+  "the parent's on-disk link count is below 65000 (EXT4_LINK_MAX): ext2fs_mkdir increments the 16-bit field without the dir_nlink saturation rule (observation, reported)",
+  "ext2fs_inline_data_init does not fail (its result is ignored by ext2fs_mkdir: genuine defect, findings/C10_mkdir_inline_init_error, unit mkdir_protocol_full)",
+  "name is NULL or a C string of at most 4 bytes; superblock feature words, s_rev_level, s_first_ino, fs->umask arbitrary",
+  "malloc/free are CBMC's built-in models"
+ ],
  "native": false
 }
 */
 /* VERIF-UNIT
 {
  "name": "mkdir_protocol_full",
- "props": ["C10"],
+ "props": [
+  "C10",
+  "C18"
+ ],
  "level": "P",
  "tier": "quick",
  "harness": "h_mkdir",
- "enforce": ["ext2fs_mkdir"],
+ "enforce": [
+  "ext2fs_mkdir"
+ ],
  "unwind": 8,
  "unwind_reason": "ext2fs_mkdir is loop-free; strlen runs over a name of at most 4 bytes (cap stated in assumes); unwinding assertions on",
  "timeout": 300,
- "functions": ["lib/ext2fs/mkdir.c:ext2fs_mkdir"],
- "assumes": ["every callee (ext2fs_new_inode, _new_block2, _find_inode_goal, _new_dir_block, _new_dir_inline_data, _read_inode, _iblk_set, _write_new_inode, _write_dir_block4, _inline_data_init, _extent_open2/_set_bmap/_free, _block/_inode_alloc_stats2, _lookup, _link, _write_inode) is a stub in the unit: checks its arguments against the ghost monitor, logs the event, fails nondeterministically", "the link stub may change every field of the parent's on-disk inode except i_links_count", "the parent's on-disk link count is below 65000 (EXT4_LINK_MAX): ext2fs_mkdir increments the 16-bit field without the dir_nlink saturation rule (observation, reported)", "EXPECTED TO FAIL on the unchanged tree (SWALLOW, STATS): findings/C10_mkdir_inline_init_error; green with proposed-fix.patch", "name is NULL or a C string of at most 4 bytes; superblock feature words, s_rev_level, s_first_ino, fs->umask arbitrary", "malloc/free are CBMC's built-in models"],
+ "functions": [
+  "lib/ext2fs/mkdir.c:ext2fs_mkdir"
+ ],
+ "assumes": [
+  "every callee (ext2fs_new_inode, _new_block2, _find_inode_goal, _new_dir_block, _new_dir_inline_data, _read_inode, _iblk_set, _write_new_inode, _write_dir_block4, _inline_data_init, _extent_open2/_set_bmap/_free, _block/_inode_alloc_stats2, _lookup, _link, _write_inode) is a stub in the unit: checks its arguments against the ghost monitor, logs the event, fails nondeterministically",
+  "the link stub may change every field of the parent's on-disk inode except i_links_count",
+  "the parent's on-disk link count is below 65000 (EXT4_LINK_MAX): ext2fs_mkdir increments the 16-bit field without the dir_nlink saturation rule (observation, reported)",
+  "EXPECTED TO FAIL on the unchanged tree (SWALLOW, STATS): findings/C10_mkdir_inline_init_error; green with proposed-fix.patch",
+  "name is NULL or a C string of at most 4 bytes; superblock feature words, s_rev_level, s_first_ino, fs->umask arbitrary",
+  "malloc/free are CBMC's built-in models"
+ ],
  "native": false
 }
 */
@@ -96,6 +126,7 @@ struct ghost {
 	struct ext2_inode disk_parent;		/* the parent's on-disk inode */
 	unsigned t_write_new, t_write_blk, t_inline_init, t_link, t_write_parent, t_read_parent_last, t_lookup;
 	unsigned n_write_new, n_write_blk, n_link, n_write_parent, n_read_parent;
+	unsigned link_unaccounted;	/* ext2fs_link ran while the new inode / block were not (yet) marked in use */
 	int blk_stats, ino_stats;		/* net effect of the alloc_stats calls */
 	unsigned n_blk_plus, n_blk_minus, n_ino_plus, n_ino_minus;
 	int bad;				/* a stub saw wrong arguments */
@@ -239,6 +270,10 @@ errcode_t ext2fs_link(ext2_filsys fs, ext2_ino_t dir, const char *name, ext2_ino
 	if (!(fs == &FS && dir == IN.parent && name == (const char *)IN.name && ino == G.ino && flags == EXT2_FT_DIR)) G.bad = 1;
 	G.t_link = TICK();
 	G.n_link++;
+	/* ext2fs_link may ALLOCATE (htree leaf split, directory expansion): an allocator hands out any block / inode whose bit
+	 * is clear (fileio/new_block3), so the new directory's own block and inode must be accounted as in use by now */
+	if (G.ino_stats != 1 || (!INLINE_DATA && G.blk_stats != 1))
+		G.link_unaccounted = 1;
 	if (IN.f_link) return IN.f_link;
 	/* linking may rewrite the parent's inode (inline data -> block, new block appended ...), not its link count */
 	G.disk_parent.i_size = IN.p_size1;
@@ -334,7 +369,7 @@ errcode_t ext2fs_mkdir(ext2_filsys fs, ext2_ino_t parent, ext2_ino_t inum, const
 	REQUIRES(parent == IN.parent && inum == IN.inum && name == (IN.has_name ? (const char *)IN.name : (const char *)0))
 	REQUIRES(SB.s_feature_incompat == IN.incompat && SB.s_feature_compat == IN.compat && SB.s_feature_ro_compat == IN.ro_compat)
 	REQUIRES(SB.s_rev_level == IN.rev_level && SB.s_first_ino == IN.first_ino && IN.name[4] == 0)
-	REQUIRES(G.clock == 0 && G.bad == 0 && G.n_write_new == 0 && G.n_write_blk == 0 && G.n_link == 0 && G.n_write_parent == 0 && G.n_read_parent == 0)
+	REQUIRES(G.clock == 0 && G.bad == 0 && G.n_write_new == 0 && G.n_write_blk == 0 && G.n_link == 0 && G.link_unaccounted == 0 && G.n_write_parent == 0 && G.n_read_parent == 0)
 	REQUIRES(G.blk_stats == 0 && G.ino_stats == 0 && G.n_blk_plus == 0 && G.n_blk_minus == 0 && G.n_ino_plus == 0 && G.n_ino_minus == 0)
 	REQUIRES(G.t_lookup == 0 && G.t_link == 0 && G.t_write_new == 0 && G.t_write_blk == 0 && G.t_inline_init == 0 && G.ext_open == 0)
 	REQUIRES(G.ino == (IN.inum ? IN.inum : IN.new_ino) && G.disk_parent.i_links_count < 65000)
@@ -369,6 +404,7 @@ void h_mkdir(void)
 	errcode_t ret = ext2fs_mkdir(&FS, IN.parent, IN.inum, IN.has_name ? (const char *)IN.name : (const char *)0);
 
 	unsigned bad = mk_post(ret);
+	CHECK(!G.link_unaccounted, "ALLOCATED-BEFORE-LINK: the new directory's inode and block are marked in use before ext2fs_link (which may allocate) runs");
 	CHECK(!(bad & V_ARGS), "ARGS: every callee got the inode / block / buffer / parent it was meant to get");
 	CHECK(!(bad & V_ORDER), "ORDER: new inode written, then its block (or inline area), then the name linked; extent handle released");
 	CHECK(!(bad & V_STATS), "STATS: +1 exactly once each on success; compensated to net zero on failure");
